@@ -5,6 +5,7 @@ docstrings, comments, print(...) calls, warnings.* calls.  Anything it does not 
 Unsupported, which makes the obligations of that path `undecided` -- never a violation.
 """
 import ast
+import time
 import z3
 from .values import *
 from .state import State
@@ -368,7 +369,11 @@ class Interp:
         for s in stmts:
             self.exec_stmt(s, env)
 
+    deadline = None
+
     def exec_stmt(self, s, env):
+        if self.deadline is not None and time.time() > self.deadline:
+            raise Unsupported('time budget of the contract exhausted inside one path')
         m = getattr(self, 'st_' + type(s).__name__, None)
         if m is None:
             raise Unsupported('statement %s' % type(s).__name__)
